@@ -78,3 +78,24 @@ Example C18_example_first_match :
   let r2 := {| sel := [s "k8s.io/api"]; allowed := [s "k8s.io"]; forbidden := []; transitive := false |} in
   failed (verify_rules [r1; r2] [s "k8s.io/api"]) = true /\ failed (verify_rules [r2; r1] [s "k8s.io/api"]) = false.
 Proof. vm_compute. auto. Qed.
+
+(* Context.IncomingImports, exactly: the importers of q are the packages that list q among their
+   imports, in universe order, once per listing *)
+Theorem C18_incoming_exact : forall u q, vals q (incoming u) = flat_map (contrib q) u.
+Proof. exact incoming_exact. Qed.
+Print Assumptions C18_incoming_exact.
+Theorem C18_incoming_is_direct_importers : forall u q p,
+  In p (vals q (incoming u)) <-> exists imps, In (p, imps) u /\ In q imps.
+Proof. exact incoming_spec. Qed.
+Print Assumptions C18_incoming_is_direct_importers.
+
+(* the two caches of a Context never outlive a change of the universe: over ANY history of
+   questions (direct / transitive importers) and universe changes (AddDir, AddDirectory), every
+   answer is the one computed from the universe as it is when the question is asked *)
+Theorem C18_context_answers_fresh : forall u ops, ctx_run (ctx_new u) ops = ctx_spec u ops.
+Proof. exact ctx_answers_fresh_new. Qed.
+Print Assumptions C18_context_answers_fresh.
+Example C18_example_history :
+  ctx_run (ctx_new [(s "a", [s "b"])]) [OTrans; OSet [(s "a", [s "b"]); (s "c", [s "a"])]; OTrans]
+  = [Some [(s "b", [s "a"])]; None; Some [(s "b", [s "a"; s "c"]); (s "a", [s "c"])]].
+Proof. vm_compute. reflexivity. Qed.
